@@ -1,5 +1,8 @@
 """C19 — time arithmetic exact or None, never panics; monotonic clock and sleep observed."""
+import os
+
 from . import common as C
+from . import time_extract as TX
 
 I64_MAX = 2**63 - 1
 I64_MIN = -2**63
@@ -39,18 +42,36 @@ def gen_cases(ctx, n):
             return r.below(2**34)
         return r.below(2**64)
 
+    def rawnsec():
+        """any i64 in tv_nsec (a TimeSpec can be built with `TimeSpec::new(s, n)` for every n): the agreement
+        theorems and the correspondence cover it; the property's spec (judge) only speaks about normalised values"""
+        k = r.below(6)
+        if k == 0:
+            return r.choice([I64_MIN, I64_MIN + 1, -NANOS - 1, -NANOS, -1, NANOS, NANOS + 1, 2**32 - 1, 2**32, 2**32 + NANOS,
+                             I64_MAX - NANOS, I64_MAX - 1, I64_MAX])
+        if k == 1:
+            return -r.below(2**63) - 1
+        if k == 2:
+            return NANOS + r.below(2**33)
+        if k == 3:
+            return r.below(2**63)
+        return nsec()
+
     cases = []
     for i in range(n):
         op = ["add", "sub", "diff", "cmp", "diffu"][i % 5]
-        if op in ("add", "sub"):
+        raw = (i % 7 == 3)
+        if i % 97 == 11:
+            cases.append("d2ts %d %d" % (r.choice([0, 1, I64_MAX - 1, I64_MAX, I64_MAX + 1, U64_MAX - 1, U64_MAX, r.below(2**64), r.below(2**40)]), nsec()))
+        elif op in ("add", "sub"):
             s = sec(True)
-            cases.append("%s %d %d %d %d" % (op, s, nsec(), dsecs(s), nsec()))
+            cases.append("%s %d %d %d %d" % (op, s, rawnsec() if raw else nsec(), dsecs(s), nsec()))
         elif op in ("diff", "cmp"):
             a = sec(True)
             k = r.below(4)
             b = a + r.range(-1, 1) if k == 0 else (a if k == 1 else sec(True))
             b = max(I64_MIN, min(I64_MAX, b))
-            cases.append("%s %d %d %d %d" % (op, a, nsec(), b, nsec()))
+            cases.append("%s %d %d %d %d" % (op, a, rawnsec() if raw else nsec(), b, rawnsec() if raw else nsec()))
         else:  # diffu: only on its documented domain l >= r >= epoch, or r = epoch (duration_since_unix_time)
             if r.chance(1, 3):
                 cases.append("diffu %d %d 0 0" % (sec(True), nsec()))
@@ -67,7 +88,16 @@ def judge(case, out):
     """property C19's own spec, evaluated in exact integer arithmetic on the implementation's output"""
     w = case.split()
     op = w[0]
+    if op == "d2ts":
+        secs, nanos = int(w[1]), int(w[2])
+        if out == "panic":
+            return "panicked"
+        if secs <= I64_MAX:
+            return None if out == "some %d %d" % (secs, nanos) else "wrong conversion: expected (%d, %d)" % (secs, nanos)
+        return None if out == "none" else "Ok although the seconds do not fit an i64"
     a, b, c, d = (int(x) for x in w[1:5])
+    if not 0 <= b < NANOS or (op in ("diff", "diffu", "cmp") and not 0 <= d < NANOS):
+        return None     # non-normalised tv_nsec: outside the property's spec; model/generated/real code are still compared
     if out == "panic":
         return "panicked"
     o = out.split()
@@ -120,6 +150,11 @@ def run(ctx):
         "derived Ord on TimeSpec compares (tv_sec, tv_nsec) lexicographically (checked by the cmp cases)",
         "monotonic clock and sleep(d) >= d are kernel behaviour: observed by this run, not proved; the retry loop of thread::sleep is proved (sleep_total) under the nanosleep remaining-time contract",
     ]
+    ctx.assumptions.append(
+        "tie T: checks/time_extract.py translates the Rust text faithfully (µRust fragment, Rust integer semantics as stated in "
+        "the header of Gen/TimePure.lean; core's checked_*/try_from/Duration::new and the newtype erasure are its trusted "
+        "prelude); the generated definitions are ALSO run against the real code (streams timegen-*), and are proved equal to the model")
+    extract_problems = prepare(ctx)
     ok = C.lean_prove(ctx, "TinyVerif.Props.C19", drivers=["drv_c19"])
     n = 20000 if ctx.tier == "quick" else 400000
     cases = gen_cases(ctx, n)
@@ -135,11 +170,22 @@ def run(ctx):
         lines = ["mode " + mode] + cases
         good = C.correspond(ctx, "time-" + mode, lines, [exe], drv, lambda c, o: None if c.startswith("mode") else judge(c, o), sig_of)
         all_ok = all_ok and good
+        # the definitions generated from the Rust text, through the same public entry point the harness uses on each line
+        glines = ["mode gen-" + mode] + cases[:max(1, len(cases) // 2)]
+        good = C.correspond(ctx, "timegen-" + mode, glines, [exe], drv, lambda c, o: None if c.startswith("mode") else judge(c, o), sig_of)
+        all_ok = all_ok and good
         if not release:
             _, outs, _ = C.run_filter([exe], lines)
             for c, o in zip(lines[1:], outs[1:]):
                 w = c.split()
+                if w[0] == "d2ts":
+                    ctx.count(("d2ts", o.split()[0]))
+                    ctx.hist("outcomes", "d2ts:" + o.split()[0])
+                    continue
                 a, b, cc, d = (int(x) for x in w[1:5])
+                if not 0 <= b < NANOS or (w[0] in ("diff", "diffu", "cmp") and not 0 <= d < NANOS):
+                    ctx.hist("outcomes", w[0] + "-raw-nsec:" + o.split()[0])
+                    continue
                 carry = (w[0] == "add" and b + d >= NANOS) or (w[0] in ("sub", "diff", "diffu") and b - d < 0)
                 ctx.count((w[0], o.split()[0], carry, a < 0))
                 ctx.hist("outcomes", w[0] + ":" + o.split()[0])
@@ -217,5 +263,59 @@ def run(ctx):
     for d, o in short[:3]:
         ctx.violation({"kind": "sleep-short"}, {"requested_ns": d, "observed": o})
     ctx.evaluations += 1 + len(sl)
-    if not ok and not ctx.violations:
-        ctx.violation({"kind": "proof-broken"}, {"broken": ctx.broken}, no_input=True)
+    # broken obligations are reported after the search for a concrete failing input (no-failing-input-found):
+    # a construct of the source the translator cannot carry over (fail closed), or a theorem that no longer builds
+    # (e.g. gen_agrees_*: the arithmetic written in the source is no longer the arithmetic of the model)
+    if extract_problems:
+        ctx.violation({"kind": "extractor-cannot-translate"},
+                      {"problems": extract_problems,
+                       "note": "tiny-std/src/time.rs or rusl/src/platform/compat/time.rs left the translatable fragment: the theorems "
+                               "about Gen/TimePure.lean (gen_agrees_*, src_*) no longer speak about the source; the checks above ran "
+                               "with the previously generated definitions"}, no_input=True)
+    if not ok:
+        errs = [e for b in ctx.broken if isinstance(b, dict) for e in b.get("errors", [])]
+        ctx.violation({"kind": "proof-broken"}, {"broken": ctx.broken, "lean_errors": errs[:10],
+                                                 "theorems_hit": broken_theorems(errs)}, no_input=True)
+
+
+def prepare(ctx):
+    """tie T: regenerate Gen/TimePure.lean from the Rust text of the current tree; returns the list of problems
+    (empty = translated).  On a problem nothing is written (fail closed: reported by run() as a broken obligation)."""
+    try:
+        good, text, problems = TX.generate(C.REPO)
+    except Exception as ex:  # a translator crash is a broken obligation too
+        good, text, problems = False, "", ["time_extract crashed: %r" % (ex,)]
+    ctx.obligations += 1
+    path = os.path.join(C.LEAN, "TinyVerif", "Gen", "TimePure.lean")
+    if not good:
+        ctx.broken.append({"time_extract": problems})
+        return problems or ["time_extract failed"]
+    ctx.discharged += 1
+    old = open(path).read() if os.path.exists(path) else None
+    if old != text:
+        with open(path, "w") as f:
+            f.write(text)
+    ctx.extra["time_extract"] = {"translated_functions": text.count("\ndef ") - 8, "regenerated": old != text}
+    return []
+
+
+def broken_theorems(errs):
+    """names of the theorems of Props/C19.lean in which the reported Lean errors lie"""
+    import re
+    path = os.path.join(C.LEAN, "TinyVerif", "Props", "C19.lean")
+    try:
+        src = open(path).read().splitlines()
+    except OSError:
+        return []
+    out = []
+    for e in errs:
+        m = re.search(r"Props/C19\.lean:(\d+):", e)
+        if not m:
+            continue
+        for ln in range(min(int(m.group(1)), len(src)) - 1, -1, -1):
+            t = re.match(r"\s*(theorem|example|def|macro)\s+(\S+)", src[ln])
+            if t:
+                if t.group(2) not in out:
+                    out.append(t.group(2))
+                break
+    return out
